@@ -62,6 +62,10 @@ INFO = {
         'truncated frame + silence must close a peer/distributed link within 60 s x (1 + messages the client sent on that '
         'link meanwhile) + 5 s (every send shifts the read deadline by one read timeout); not exercised on the server link '
         '(600 s timeout shifted by every ping)',
+        'a frame whose length prefix lies is outside the premise of the delivery clauses: after it only "the silent link is '
+        'closed by the read timeout" (the reader is alive) and the frames sent before it are judged',
+        'an unretrieved ConnectionWriteError of a fire-and-forget reply task (queue_message) on a link that just went away '
+        'is counted as a probe, not as C02.task_died (no reader involved, not caused by parsing)',
         'connection._reader_task (private) is read only to describe a reader_dead finding; the verdict is the undelivered probe frame',
         'wall-time watchdog: SIGALRM re-armed after every loop iteration',
     ],
@@ -656,6 +660,8 @@ def corpus(tier):
                 f"{l}>alice": {'base_ms': 5, 'jitter_ms': 0,
                                'segmentation': 'whole' if regime == 'onesegment' else regime} for l in LINKS})
             out.append(_plan(mixed, regimes={l: regime for l in LINKS}, net=net, dist_obf=coalesce))
+    for k in ('00000000', 'ffffffff', '80000001', '00000100'):
+        out.append(_plan([dict(r, key=k) for r in mixed if r['src'] == 'pobf'], regimes={l: 'byte' for l in LINKS}))
     # 6. teardown steps on every link
     for link in LINKS:
         fam = FAMILY[link]
@@ -683,7 +689,8 @@ def enumerated_axes(tier):
                                    'note': 'each cell with three parameter settings in the directed corpus'},
         'valid message classes': {'size': sum(len(POOL[f]) for f in POOL), 'exhaustive': True,
                                   'note': 'every buildable class of the three families is delivered at least once per batch'},
-        'teardown kind x link': {'size': len(TEARDOWNS) * len(LINKS) - 1, 'exhaustive': True},
+        'teardown kind x link': {'size': len(TEARDOWNS) * len(LINKS) - len(SILENCES), 'exhaustive': True,
+                                 'note': 'the two silence kinds are not applicable to the server link (600 s timeout)'},
         'bad first frame kind x port': {'size': len(BADFIRST) * 2, 'exhaustive': True},
     }
 
@@ -1005,7 +1012,10 @@ def _run(world: World, plan):
         peer = bf_peers[i]
         await asyncio.sleep(float(rec.get('at') or 0.0))
         obf = rec.get('port') == 'obf'
-        link = await peer.connect(alice.host.ip, 60001 if obf else 60000, obfuscated=obf)
+        try:
+            link = await peer.connect(alice.host.ip, 60001 if obf else 60000, obfuscated=obf)
+        except OSError:
+            return      # reported below as 'port refused a connection'
         ent = {'rec': rec, 'link': link, 'addr': link.writer.get_extra_info('sockname'), 'sent_at': loop.time()}
         bf.append(ent)
         fired['bad_first_frame'] += 1
@@ -1077,7 +1087,8 @@ def _run(world: World, plan):
         for _ in range(60):
             await asyncio.sleep(0.25)
             if not any(tap.pending.get((lk['sim'].id, lk['dir'])) for lk in L.values()
-                       if lk['sim'] is not None and lk['torn'] is None):
+                       if lk['sim'] is not None and lk['torn'] is None and lk['conn'] is not None
+                       and closing_at(lk['conn']) is None):
                 break
         await asyncio.sleep(0.5)
         # probes
@@ -1098,8 +1109,6 @@ def _run(world: World, plan):
             if all(lk['probe'] is None or lk['probe'].get('arrived') is not None for lk in L.values()) \
                     and loop.time() >= t_probe + PROBE_BOUND:
                 break
-        for lk in L.values():
-            lk['ev_to'] = len(ev_log)
         # bad first frames: the ports still accept
         if badfirst:
             await asyncio.sleep(1.0)
@@ -1117,7 +1126,7 @@ def _run(world: World, plan):
                     t_ref = (lk['partial'].get('arrived') or lk['silence_from'])
                     sends = len([t for t in tap.writes.get(lk['sim'].id, []) if t >= lk['torn_at'] - READ_TIMEOUT])
                     lk['deadline'] = t_ref + READ_TIMEOUT * (1 + sends) + 5.0
-                    if loop.time() > lk['deadline']:
+                    if loop.time() > lk['deadline'] or loop.time() > lk['torn_at'] + 1500.0:
                         break
                     await asyncio.sleep(1.0)
             else:
@@ -1196,6 +1205,9 @@ def _run(world: World, plan):
     for lk in L.values():
         name, fam, conn = lk['name'], lk['family'], lk['conn']
         if lk.get('setup_failed'):
+            if name == 'dist' and conn is not None and close_reason(conn) == 'REQUESTED':
+                # the client did not take the D connection as a child: the world is not the one this check needs
+                raise RuntimeError('harness: D connection was rejected as a child during set-up')
             world.violate('C02.delivery', link=name, what='valid PeerInit did not produce an open initialised connection')
             continue
         frames = lk['sent']
@@ -1309,8 +1321,12 @@ def _run(world: World, plan):
                           after=label_at(p_max - 1))
             continue
         if probe_delivered:
-            world.violate('C02.delivery', link=name, what='frame missing although later frames were delivered',
-                          missing=label_at(p_max), after=label_at(p_max - 1))
+            if (label_at(p_max - 1) or '').startswith('m:'):
+                world.violate('C02.extra', link=name, what='frame after a malformed frame disturbed',
+                              malformed=label_at(p_max - 1), expected=label_at(p_max), got=None)
+            else:
+                world.violate('C02.delivery', link=name, what='frame missing although later frames were delivered',
+                              missing=label_at(p_max), after=label_at(p_max - 1))
             continue
         # open, yet frames are missing: the reader stopped (dead or stuck) without closing the connection
         world.violate('C02.reader_dead', link=name, state=conn.state.name, reader=reader_status(conn),
